@@ -357,19 +357,24 @@ def run_sites(case, ctx):
             rng = numpy.random.RandomState(case["sub"] + vi)
             keys = [keys[i] for i in sorted(rng.choice(len(keys), 4, replace=False))]
         for site in keys:
-            for nth in sorted({1, hits[site]}):
-                cfg = {"class": spec.name, "variant": vi, "site": list(site), "hit": nth, "callees": sites[site][:2]}
+            # an ordinary exception at the first and at the last hit of the site, and the user's Ctrl-C
+            # (KeyboardInterrupt is not an Exception: `except Exception` does not see it) at the first hit
+            for nth, exc in [(n_, InjectedFault) for n_ in sorted({1, hits[site]})] + [(1, KeyboardInterrupt)]:
+                cfg = {"class": spec.name, "variant": vi, "site": list(site), "hit": nth, "callees": sites[site][:2],
+                       "raises": exc.__name__}
                 e2 = spec.make(vi)
                 D2 = spec.data(numpy.random.RandomState(3))
                 p0, d0 = params_fp(e2), data_fp(D2)
                 numpy.random.seed(5)
                 fired = False
                 try:
-                    with failpoints.Inject(site, nth) as inj:
+                    with failpoints.Inject(site, nth, exc) as inj:
                         spec.fit(e2, D2)
                     fired = inj.fired
-                except InjectedFault:
+                except (InjectedFault, KeyboardInterrupt):
                     fired = True
+                    if exc is KeyboardInterrupt:
+                        ctx.hit("fault.call_site.keyboard_interrupt")
                 except Exception as e:
                     # the fault was swallowed and turned into another failure: still a failed fit
                     fired = True
@@ -382,6 +387,8 @@ def run_sites(case, ctx):
                     ctx.violation(K + "fit/input-modified/failed-fit", "fit wrote into the caller's data before "
                                   "failing at %s:%s:%s" % tuple(site), cfg=cfg)
                 where = "%s:%s" % (site[0].rsplit("/", 1)[-1], site[1])
+                if exc is KeyboardInterrupt:
+                    where += "/KeyboardInterrupt"
                 atomicity(ctx, spec, vi, e2, p0, "call-site/%s" % where, cfg, K)
                 ctx.nontriv("site", spec.name, vi, site, nth)
     ctx.extra["census"] = {spec.name: census_all}
